@@ -115,7 +115,15 @@ func (wr *worldRunner) runCase(prop string, p profile, r *rng.R, stats map[strin
 					info.shape += "/unbuildable"
 				}
 			}
-			op := world.Op{Kind: "recv", Pkt: pkt, Twin: prop == "C11"}
+			op := world.Op{Kind: "recv", Pkt: pkt, Twin: prop == "C11", Ref: prop == "C07"}
+			if r.Chance(p.pCallback) && pkt.ICS != nil {
+				// a packet Noble sent earlier: its acknowledgement or timeout comes back
+				op.Callback = rng.Pick(r, []string{"ack-ok", "ack-err", "timeout"})
+				op.Pkt = world.Packet{SrcPort: dstPort, SrcChan: rng.Pick(r, dstChans), DstPort: srcPort, DstChan: srcChan,
+					ICS: &world.ICS20{Denom: rng.Pick(r, []string{sim.USDC, "ufoo", "transfer/channel-0/uatom"}), Amount: fmt.Sprint(1 + r.Intn(5000)),
+						Sender: rng.Pick(r, []string{wr.a.users[0].Bech, sim.OrbiterAddr().String(), "noble1invalid"}), Receiver: "cosmos1xyz", Memo: pkt.ICS.Memo}}
+				info = pktInfo{shape: "callback/" + op.Callback}
+			}
 			if info.orbiter && r.Chance(p.pFault) {
 				k := r.Intn(9)
 				op.Plan = make([]bool, k+1)
@@ -266,6 +274,8 @@ func describeOp(op world.Op, info pktInfo, o world.OpObs) string {
 			fmt.Fprintf(&b, " | %s", c.String())
 		}
 		return b.String()
+	case "callback":
+		return "callback"
 	case "msg":
 		return fmt.Sprintf("msg %s signer=%q id=%q ids=%v max=%d => ok=%v %s %s", op.Msg.Kind, op.Msg.Signer, op.Msg.ID, op.Msg.IDs, op.Msg.Max, o.MsgOK, o.MsgErr, o.MsgPan)
 	case "deposit":
@@ -329,7 +339,7 @@ var sigProp = map[string]string{
 	"stats-fold": "C12", "stats-changed-by-non-transfer": "C12",
 	"passthrough-over-limit-accepted": "C18", "passthrough-within-limit-refused": "C18", "limit-not-in-force": "C18", "passthrough-checked-late": "C18",
 	"prior-balance-changes-outcome": "C11", "prior-balance-not-swept": "C11", "prior-balance-other-denom-moved": "C11",
-	"decoder-roundtrip": "C15",
+	"decoder-roundtrip": "C15", "middleware-not-transparent": "C07", "orbiter-state-touched": "C07",
 	"repeated-action-accepted": "C06", "ordered-payload-refused": "C06", "action-order": "C06", "final-coin": "C06",
 }
 
@@ -341,6 +351,12 @@ func (o *oracle) check(op world.Op, info pktInfo, obs world.OpObs) []Failure {
 	var fs []Failure
 	desc := describeOp(op, info, obs)
 	nd := len(o.wr.w.Denoms)
+	if obs.Kind == "callback" {
+		if obs.RefDiff != "" {
+			return []Failure{o.fail("middleware-not-transparent", "the "+op.Callback+" callback behaves differently with and without the middleware: "+obs.RefDiff, desc)}
+		}
+		return nil
+	}
 	switch op.Kind {
 	case "recv":
 		orbFlow := world.IsOrbiterFlow(op.Pkt)
@@ -394,6 +410,13 @@ func (o *oracle) check(op world.Op, info pktInfo, obs world.OpObs) []Failure {
 			if !bridge {
 				fs = append(fs, o.fail("success-without-forwarding", "success acknowledgement for an orbiter packet although nothing was forwarded", desc))
 			}
+		}
+		// the property is about packets IBC core can deliver: a valid destination channel identifier
+		if obs.RefDiff != "" && channeltypes.IsValidChannelID(op.Pkt.DstChan) && op.Pkt.SrcPort != "" && op.Pkt.SrcChan != "" {
+			fs = append(fs, o.fail("middleware-not-transparent", "a packet that is not the orbiter's is handled differently with and without the middleware: "+obs.RefDiff, desc))
+		}
+		if !orbFlow && (!obs.After.State.V().Equal(obs.Before.State.V())) {
+			fs = append(fs, o.fail("orbiter-state-touched", "a packet that is not the orbiter's changed the orbiter's own state", desc))
 		}
 		fs = append(fs, o.checkMoves(op, info, obs, desc)...)
 		fs = append(fs, o.checkGates(op, info, obs, desc)...)
